@@ -54,16 +54,21 @@ Contig(l, a, b) == \A j \in a..b : /\ l[j].ok /\ l[j].id = l[a].id /\ l[j].h = l
 RECURSIVE SumN(_, _, _)
 SumN(l, a, b) == IF a > b THEN 0 ELSE l[a].n + SumN(l, a + 1, b)
 
-RECURSIVE FuWalk(_, _, _)
-FuWalk(c, l, i) ==
-  IF i > Len(l) THEN Fail
-  ELSE LET p == l[i] IN
-       IF ~Next1(p.seq, l[i-1].seq) THEN Fail
-       ELSE IF p.k = "fu" /\ p.s = 0 /\ p.e = 0 THEN FuWalk(c, l, i + 1)
-       ELSE IF p.k = "fu" /\ p.s = 0 /\ p.e = 1
-            THEN [ok |-> TRUE, k |-> i, seq |-> p.seq,
-                  u |-> << Dl(l[1].h, HB(c) + SumN(l, 1, i), l[1].id, l[1].off, Contig(l, 1, i)) >>]
-       ELSE Fail
+\* Walk from the FU start at l[1]: every next packet must follow by one; a middle fragment goes on, an
+\* end fragment completes the unit, anything else (or running out of packets) fails.  Written with a
+\* set of stop points instead of a recursion so that TLC evaluates long fragment runs quickly.
+MinOf(S) == CHOOSE x \in S : \A y \in S : x <= y
+FuStop(l, i) == \/ ~Next1(l[i].seq, l[i-1].seq)
+                \/ ~(l[i].k = "fu" /\ l[i].s = 0 /\ l[i].e = 0)
+FuWalk(c, l, i0) ==
+  LET stops == {i \in i0..Len(l) : FuStop(l, i)} IN
+  IF stops = {} THEN Fail
+  ELSE LET i == MinOf(stops)
+           p == l[i]
+       IN IF Next1(p.seq, l[i-1].seq) /\ p.k = "fu" /\ p.s = 0 /\ p.e = 1
+          THEN [ok |-> TRUE, k |-> i, seq |-> p.seq,
+                u |-> << Dl(l[1].h, HB(c) + SumN(l, 1, i), l[1].id, l[1].off, Contig(l, 1, i)) >>]
+          ELSE Fail
 
 RECURSIVE AuWalk(_, _, _)
 AuWalk(l, i, acc) ==
@@ -153,12 +158,12 @@ Flat(pk) == IF pk = <<>> THEN <<>> ELSE Head(pk) \o Flat(Tail(pk))
 (* Receiver: RtpUnpackContainer.Feed over RtpPacketList.  st = [l, d, out]; d = -1 before the *)
 (* first unit has been delivered.                                                             *)
 RxInit == [l |-> <<>>, d |-> -1, out |-> <<>>]
-RECURSIVE Ins(_, _, _)
-Ins(l, p, i) == IF i > Len(l) THEN Append(l, p)
-                ELSE LET cc == Cmp(p.seq, l[i].seq) IN
-                     IF cc = 0 THEN l
-                     ELSE IF cc = 1 THEN Ins(l, p, i + 1)
-                     ELSE SubSeq(l, 1, i - 1) \o <<p>> \o SubSeq(l, i, Len(l))
+\* RtpPacketList.Insert: scan from the head; equal -> drop, greater -> go on, smaller -> insert before
+Ins(l, p, i0) == LET stops == {i \in i0..Len(l) : Cmp(p.seq, l[i].seq) # 1} IN
+                 IF stops = {} THEN Append(l, p)
+                 ELSE LET i == MinOf(stops) IN
+                      IF Cmp(p.seq, l[i].seq) = 0 THEN l
+                      ELSE SubSeq(l, 1, i - 1) \o <<p>> \o SubSeq(l, i, Len(l))
 Stale(st, p) == st.d >= 0 /\ Cmp(p.seq, st.d) <= 0
 FirstSeqOk(st) == Len(st.l) > 0 /\ (st.d < 0 \/ Next1(st.l[1].seq, st.d))
 Unpack1(c, st) == LET r == Try(c, st.l) IN
